@@ -217,3 +217,25 @@ M("M_C13_f", ["C13"], "cotengra/interface.py",
   "        except TypeError:\n            # some part of the contraction specification is unhashable\n            key = None",
   "        except ZeroDivisionError:\n            key = None",
   "revert of the unhashable-key fallback", ["tests/test_interface.py"])
+
+# ------------------------------- C15 --------------------------------------
+M("M_C15_a", ["C15"], "cotengra/utils.py",
+  "            with open(tmpname, \"wb\") as f:\n                pickle.dump(v, f)\n            os.replace(tmpname, fname)",
+  "            with open(fname, \"wb+\") as f:\n                pickle.dump(v, f)",
+  "revert of the atomic write (in-place write)", ["tests/test_optimizers.py"])
+M("M_C15_b", ["C15"], "cotengra/utils.py",
+  "            with open(tmpname, \"wb\") as f:\n                pickle.dump(v, f)\n            os.replace(tmpname, fname)",
+  "            with open(tmpname, \"wb\") as f:\n                os.replace(tmpname, fname)\n                pickle.dump(v, f)",
+  "temporary file renamed into place before the data is written", ["tests/test_optimizers.py"])
+M("M_C15_c", ["C15"], "cotengra/utils.py",
+  "            tmpname = fname.with_name(f\".{fname.name}.{os.getpid()}.tmp\")\n",
+  "            tmpname = fname.with_name(f\".{fname.name}.{os.getpid()}.tmp\") if not fname.exists() else fname\n",
+  "existing entries are still overwritten in place", ["tests/test_optimizers.py"])
+M("M_C15_d", ["C15"], "cotengra/utils.py",
+  "            tmpname = fname.with_name(f\".{fname.name}.{os.getpid()}.tmp\")\n",
+  "            tmpname = fname.with_name(f\"{fname.name}.{os.getpid()}.partial\")\n",
+  "harmless: different temporary name", ["tests/test_optimizers.py"], harmless=True)
+M("M_C15_e", ["C15"], "cotengra/utils.py",
+  "            with open(tmpname, \"wb\") as f:\n                pickle.dump(v, f)\n            os.replace(tmpname, fname)",
+  "            data = pickle.dumps(v)\n            with open(tmpname, \"wb\") as f:\n                f.write(data[:-1])\n            os.replace(tmpname, fname)\n            with open(fname, \"ab\") as f:\n                f.write(data[-1:])",
+  "last byte appended after the rename (two cooperating steps, each looks fine)", ["tests/test_optimizers.py"])
